@@ -101,6 +101,15 @@ func H19List() {
 			}
 		}
 	}
+	// uploads without records are dropped before the limit is applied: where the statement
+	// filters on the record count, it does so at the level of the limit, ahead of it
+	if rc := strings.Index(text, "rCount > 0"); rc >= 0 && limit != 0 {
+		pos := strings.Index(text, want)
+		if pos >= 0 {
+			level, rel := h19Level(text, pos)
+			vndAssert(strings.Contains(level[:rel], "rCount > 0"), "uploads-without-records-are-dropped-before-the-limit")
+		}
+	}
 	// the statement as a whole lists newest first: the last ORDER BY is by day, then sequence, descending
 	ob := strings.LastIndex(text, " ORDER BY ")
 	vndAssert(ob >= 0 && strings.Contains(text[ob:], "Day DESC") && strings.Contains(text[ob:], "Seq DESC"), "listing-is-ordered-newest-first")
